@@ -50,8 +50,8 @@ def SocksAdapter_handleRequest_lits : List Nat := [4, 0, 1, 3, 0, 4, 1, 0, 16, 0
 def SocksAdapter_handleSocksConnection : List String := ["s.handleHandshake", "s.handleRequest"]
 def SocksAdapter_sendReply : List String := ["net.ParseIP", "ip.To4", "ip.To16", "binary.BigEndian.PutUint16", "conn.Write"]
 def SocksAdapter_sendReply_lits : List Nat := [0, 22, 0, 2]
-def UDPRelay_buildUDPHeader : List String := ["net.ParseIP", "ip.To4", "copy", "binary.BigEndian.PutUint16", "copy", "ip.To16", "copy", "binary.BigEndian.PutUint16", "copy", "copy", "copy", "binary.BigEndian.PutUint16", "copy"]
-def UDPRelay_buildUDPHeader_lits : List Nat := [10, 0, 0, 1, 0, 2, 0, 3, 4, 8, 8, 10, 10, 22, 0, 0, 1, 0, 2, 0, 3, 4, 20, 20, 22, 22, 0, 1, 1, 4, 2, 0, 0, 1, 0, 2, 0, 3, 4, 4, 4, 4, 2]
+def UDPRelay_buildUDPHeader : List String := ["net.ParseIP", "ip.To4", "copy", "binary.BigEndian.PutUint16", "copy", "ip.To16", "copy", "binary.BigEndian.PutUint16", "copy", "copy", "binary.BigEndian.PutUint16", "copy"]
+def UDPRelay_buildUDPHeader_lits : List Nat := [10, 0, 0, 1, 0, 2, 0, 3, 4, 8, 8, 10, 10, 22, 0, 0, 1, 0, 2, 0, 3, 4, 20, 20, 22, 22, 5, 2, 0, 0, 1, 0, 2, 0, 3, 4, 5, 5, 5, 5, 2]
 def UDPRelay_parseUDPHeader : List String := ["len", "len", "net.IP", "len", "len", "len", "net.IP", "binary.BigEndian.Uint16"]
 def UDPRelay_parseUDPHeader_lits : List Nat := [4, 0, 2, 0, 0, 2, 3, 10, 0, 4, 8, 10, 5, 0, 4, 5, 2, 0, 5, 5, 5, 2, 22, 0, 4, 20, 22, 0, 2]
 end Skel
